@@ -234,8 +234,13 @@ func (mw *msgWriter) writeGenHeader(msg *Msg) {
 // Parameters:
 //   - msg: The Msg object containing the preformatted headers to be written.
 func (mw *msgWriter) writePreformattedGenHeader(msg *Msg) {
-	for key, val := range msg.preformHeader {
-		line := fmt.Sprintf("%s: %s%s", key, val, SingleNewLine)
+	keys := make([]string, 0, len(msg.preformHeader))
+	for key := range msg.preformHeader {
+		keys = append(keys, string(key))
+	}
+	sort.Strings(keys)
+	for _, key := range keys {
+		line := fmt.Sprintf("%s: %s%s", key, msg.preformHeader[Header(key)], SingleNewLine)
 		mw.writeString(line)
 		msg.headerCount += strings.Count(line, SingleNewLine)
 	}
@@ -364,8 +369,14 @@ func (mw *msgWriter) addFiles(files []*File, isAttachment bool) {
 			}
 		}
 		if mw.depth == 0 {
-			for header, val := range file.Header {
-				mw.writeHeader(Header(header), val...)
+			// write the header fields in a stable order, map iteration order is random
+			headers := make([]string, 0, len(file.Header))
+			for header := range file.Header {
+				headers = append(headers, header)
+			}
+			sort.Strings(headers)
+			for _, header := range headers {
+				mw.writeHeader(Header(header), file.Header[header]...)
 			}
 			mw.writeString(SingleNewLine)
 		}
